@@ -39,6 +39,7 @@ type histOpt struct {
 	Unchanged bool              // add a final round without edits
 	SlowFiles bool              // reorder completion of file contents through read delays
 	Filter    fsutil.FilterFunc // receiver-side filter that rewrites metadata (always accepts)
+	Unpriv    bool              // the whole history runs with the effective uid/gid of an ordinary user
 	GenOpt    tree.GenOpt
 	EditOpt   editOpt
 }
@@ -65,6 +66,10 @@ func runHistoryFrom(c *core.Ctx, r *core.Result, ho histOpt, cur *tree.Tree, edi
 	R := c.R
 	dest := filepath.Join(c.Dir, "dest")
 	os.Mkdir(dest, 0755)
+	if ho.Unpriv {
+		os.Chmod(c.Dir, 0755)
+		os.Lchown(dest, 1234, 1234)
+	}
 	var out []roundObs
 	for round := 0; round <= ho.Rounds; round++ {
 		ro := roundObs{}
@@ -141,7 +146,16 @@ func runHistoryFrom(c *core.Ctx, r *core.Result, ho histOpt, cur *tree.Tree, edi
 				ro.SrcF.Entries = append(ro.SrcF.Entries, ne)
 			}
 		}
-		res := runSync(syncOpt{Cfg: wire.Config{Cap: core.Pick(R, []int{0, 1, 8, 64}), KeepStats: true}, Src: fs, Dest: dest, Recv: ropt})
+		so := syncOpt{Cfg: wire.Config{Cap: core.Pick(R, []int{0, 1, 8, 64}), KeepStats: true}, Src: fs, Dest: dest, Recv: ropt}
+		var res *syncRes
+		if ho.Unpriv {
+			if err := asUser(1234, 1234, func() { res = runSync(so) }); err != nil {
+				r.Inconclusive = "cannot switch uid: " + err.Error()
+				return nil
+			}
+		} else {
+			res = runSync(so)
+		}
 		if checkHang(r, res, fmt.Sprintf("round %d edits %v", round, ro.Edits)) {
 			return nil
 		}
@@ -297,7 +311,17 @@ func c02Run(c *core.Ctx) *core.Result {
 	}
 	g, eo := histGenOpt(c.R)
 	ho := histOpt{Rounds: c.R.Range(1, 3), DiffNoneP: 5, Targeted: true, Synthetic: c.R.P(1, 4), Unchanged: c.R.P(1, 2), GenOpt: g, EditOpt: eo}
-	if c.R.P(1, 4) {
+	if c.R.P(1, 6) {
+		// an ordinary user on the receiving side (trees it can own): what the
+		// kernel strips on an unprivileged write has to be put back, or the
+		// next sync finds the entry changed again
+		ho.Unpriv = true
+		ho.GenOpt.Owners = []uint32{1234}
+		ho.GenOpt.Types = "fdlp"
+		ho.GenOpt.SecXattrs, ho.GenOpt.SymXattrs, ho.GenOpt.SpecLinks = false, false, false
+		ho.EditOpt = editOpt{Owners: []uint32{1234}, Types: "fdlp", Xattrs: true}
+		r.Count("histories_with_unprivileged_receiver", 1)
+	} else if c.R.P(1, 4) {
 		// a receiver-side Filter that rewrites metadata and is not idempotent
 		// (an id shift): the identity compared is the rewritten one, applied
 		// exactly once, so a re-sync still finds nothing to do
